@@ -413,6 +413,11 @@ def run(rep):
         rep.check(names == got and None not in names and dotted(sl.value.value) in ("self._data", "self.data"), "R13.c", rel, "Grid.clip",
                   "parent bookkeeping records the row/column bounds of the slice [r0:r1+1, c0:c1+1]",
                   f"slice bounds {names}, recorded {got}", line=sl.lineno)
+    # clip finds its corner cells with coord2cell: the clauses of C07 about that kernel and its wrapper are obligations here too
+    from ..core import borrow
+    nb_ = borrow(rep, "C07", "R13.e", "Grid.clip's corner lookup: the coord2cell kernel and wrapper clauses decided for C07 (inside test, numbering, -1 outside)",
+                 lambda e: (e.func or "") in ("c_coord2cell", "coord2cell", "Grid.coord2cell") or "coord2cell" in (e.construct or ""))
+    rep.floor("coord2cell clauses taken over from C07", nb_, 8)
     return EXPLANATION
 
 
